@@ -421,6 +421,13 @@ def mode_cases(rng, n):
             c["sg"].add((t, SH.select, Literal(rng.choice([
                 "SELECT ?this WHERE { ?this <http://ex.org/p> ?x }", "SELECT ?this WHERE { ?x <http://ex.org/q> ?this }",
                 "SELECT DISTINCT ?this WHERE { ?this a ?c . FILTER (isIRI(?this)) }"]))))
+            # further sh:target values on the same shape, some of which select nothing: each target contributes its own solutions
+            for k_ in range(rng.randint(1, 3)):
+                t2 = BNode("tgt%d_%d" % (j, k_))
+                c["sg"].add((sh["id"], SH.target, t2))
+                c["sg"].add((t2, RDF.type, SH.SPARQLTarget))
+                c["sg"].add((t2, SH.select, Literal(rng.choice(["SELECT ?this WHERE { ?this <http://ex.org/nothing%d> ?x }" % k_, "SELECT ?this WHERE { ?this <http://ex.org/nothing%d> ?x }" % k_,
+                                                               "SELECT ?this WHERE { ?this <http://ex.org/r> ?x }"]))))
             c["opts"] = {"advanced": True}
             c["family"] = "sparql targets"
         cases.append(c)
